@@ -665,8 +665,9 @@ class World:
     self.had_fault = True
     name = f['name']
     own = self.prefix + str(op['step']) if op is not None else None
-    base = [x for x in name.split('/') if x.startswith(self.prefix)]
-    ent = base[0] if base else name
+    d0 = self.k['dir'].rstrip('/') + '/'
+    rel = name[len(d0):] if name.startswith(d0) else name  # entry of the checkpoint directory the operation touched
+    ent = rel.split('/')[0]
     if f['op'] == 'rename':
       site = 'commit-rename'
     elif self.is_debris(ent):
